@@ -104,6 +104,55 @@ def real_decode_graph(s, compat=False):
         return None
 
 
+def _lean_list(xs):
+    return "[" + ", ".join(str(x) for x in xs) + "]"
+
+
+def _lean_bool(b):
+    return "true" if b else "false"
+
+
+def enc_atom(a):
+    return "%s|%s|%s|%s|%s|%d" % (enc(a.element), _lean_bool(a.is_aromatic), opt(a.isotope),
+                                  "N" if a.chirality is None else enc(a.chirality), opt(a.h_count), a.charge)
+
+
+def dump_decoder_graph(mol):
+    """the decoder's MolecularGraph in the format of the driver's `decg` reply (integer orders)"""
+    atoms = ";".join(enc_atom(a) for a in mol.get_atoms())
+    adj = ";".join(",".join("%d>%d:%d:%s:%d" % (b.src, b.dst, b.order, "N" if b.stereo is None else enc(b.stereo),
+                                               1 if b.ring_bond else 0) for b in out) for out in mol._adj_list)
+    return "ok\tatoms=%s\troots=%s\tadj=%s\tcounts=%s" % (atoms, _lean_list(mol.get_roots()), adj, _lean_list(mol._bond_counts))
+
+
+def dump_parsed_graph(mol):
+    """the SMILES parser's MolecularGraph in the format of the driver's `parse` / `kek` reply (half-unit orders)"""
+    def o2(x):
+        return int(round(2 * x))
+    atoms = ";".join(enc_atom(a) for a in mol.get_atoms())
+    adj = ";".join(",".join("P" if b is None else "%d>%d:%d:%s:%d" % (b.src, b.dst, o2(b.order), "N" if b.stereo is None else enc(b.stereo),
+                                                                      1 if b.ring_bond else 0) for b in out) for out in mol._adj_list)
+    ds = ";".join("%d:%s" % (k, _lean_list(v)) for k, v in mol._delocal_subgraph.items())
+    return "ok\tatoms=%s\troots=%s\tadj=%s\tcounts2=%s\tflags=%s\tds=%s" % (
+        atoms, _lean_list(mol.get_roots()), adj, _lean_list(o2(c) for c in mol._bond_counts),
+        _lean_list(_lean_bool(f) for f in mol._ring_bond_flags), ds)
+
+
+def real_parse(smiles, kekulize=False):
+    """(wire dump of the graph smiles_to_mol builds [after kekulize()], tape) or an error line"""
+    import importlib
+    SU = importlib.import_module("selfies.utils.smiles_utils")
+    del TAPE[:]
+    try:
+        mol = SU.smiles_to_mol(smiles, attributable=False)
+        if kekulize:
+            if not mol.kekulize():
+                return "ok\tN", list(TAPE)
+        return dump_parsed_graph(mol), list(TAPE)
+    except Exception as e:  # noqa
+        return "err\t" + exc_name(e), list(TAPE)
+
+
 def ring_bond_count(mol):
     return sum(1 for (a, b), bond in mol._bond_dict.items() if bond.ring_bond and a < b)
 
